@@ -5,7 +5,7 @@ import itertools
 import random
 
 from .lib import Out, classify_mismatch, keystream, now, run_main
-from .topo import (CONNECTORS, F_STALL_RST, F_NO_EOF_WAIT, F_SLOW_READER, F_TINY_RCVBUF, HLEN, LISTENERS, Chain, OriginBank, parse_tunnel_header, tunnel_header)
+from .topo import (CONNECTORS, F_ORIGIN_HALFCLOSE, F_STALL_RST, F_NO_EOF_WAIT, F_SLOW_READER, F_TINY_RCVBUF, HLEN, LISTENERS, Chain, OriginBank, parse_tunnel_header, tunnel_header)
 
 TLS_LISTENERS = {"https", "sockstls"}
 
@@ -17,7 +17,7 @@ async def one_tunnel(out, chain, bank, seed, uid, lk, ck, shape, live):
     c2s_len, s2c_len = shape["c2s"], shape["s2c"]
     res = {"uid": uid, "lk": lk, "ck": ck, "shape": {k: v for k, v in shape.items() if k not in ("split",)}}
     origin_first = shape["first"] == "origin"
-    flags = (F_TINY_RCVBUF if shape.get("backpressure") == "c2s" else 0) | (F_SLOW_READER if shape.get("slow_reader") else 0) | (F_NO_EOF_WAIT if (lk in TLS_LISTENERS or not shape.get("halfclose")) else 0)
+    flags = (F_ORIGIN_HALFCLOSE if shape.get("origin_halfclose") else 0) | (F_TINY_RCVBUF if shape.get("backpressure") == "c2s" else 0) | (F_SLOW_READER if shape.get("slow_reader") else 0) | (F_NO_EOF_WAIT if (lk in TLS_LISTENERS or not shape.get("halfclose")) else 0)
     if origin_first:
         c2s = keystream(seed, uid, "c2s", c2s_len)
     else:
@@ -262,6 +262,16 @@ async def main(args):
                     uid += 1
                     batch.append((uid, lk, ck, sh))
                 await asyncio.gather(*[one_tunnel(out, chain, bank, args.seed, u, lk, ck, sh, live) for (u, lk, ck, sh) in batch])
+            # the origin finishes (FIN) right after a short answer while the client still uploads for a while: every uploaded byte
+            # must still arrive (a relay that stops when one direction ends loses them)
+            batch = []
+            for lk, ck in [("http", "direct"), ("socks5", "s5"), ("reverse", "h"), ("http", "q")] + pairings[:4]:
+                if lk in TLS_LISTENERS:
+                    continue
+                uid += 1
+                batch.append((uid, lk, ck, dict(c2s=300_000 if io["bufferSize"] >= 64 else 20000, s2c=100, first="client", early=0, wsz=4096, wpause=0.004, slow_reader=False, slow_client_reader=False,
+                                                host="ipv4", halfclose=True, read_before_write=False, split=None, io=io_name, cls="origin-halfclose-first", origin_halfclose=True)))
+            await asyncio.gather(*[one_tunnel(out, chain, bank, args.seed, u, lk, ck, sh, live) for (u, lk, ck, sh) in batch])
             # tunnels that die with data in flight, then fresh tunnels: nothing of a dead tunnel may surface in a later one
             for rnd in range(6 if args.thorough else 3):
                 lk, ck = [("http", "direct"), ("socks5", "s5"), ("reverse", "h")][rnd % 3] if rnd < 3 else rng.choice(pairings)
